@@ -39,6 +39,10 @@ def run_property(pid: str, tier: str, repo: str):
         grp = RULES[rule_id][0]
         if grp not in groups:
             groups.append(grp)
+    from sa.rules import EXTRA_GROUPS
+    for grp in EXTRA_GROUPS.get(pid, []):
+        if grp not in groups:
+            groups.append(grp)
     # a rule group that cannot decide (AnalysisError) does not silence a concrete violation found by another group:
     # the undecided groups are remembered and make the run UNDECIDED only when no new violation is reported
     out.undecided = []
